@@ -37,7 +37,7 @@ type CaseA struct {
 	Ops []Op `json:"ops"`
 }
 
-var opKinds = []string{"connect", "connect", "disconnect", "console", "console", "chat", "ladd", "ladd", "lrem", "lrem", "lerr", "agent", "mark", "bcastx", "sendx", "cut", "badlogin"}
+var opKinds = []string{"connect", "connect", "connect", "disconnect", "disconnect", "console", "console", "console", "chat", "chat", "ladd", "ladd", "ladd", "lrem", "lrem", "lrem", "lerr", "agent", "agent", "mark", "mark", "bcastx", "bcastx", "sendx", "cut", "cut", "badlogin"}
 
 func genA(t *rapid.T) CaseA {
 	var c CaseA
